@@ -221,5 +221,7 @@ def _run_under_dsched(action, obs, seed, st, record, sc):
         obs["steps"] = s.nsteps
         obs["live"] = sum(1 for t in s.tasks if t.state != "done" and t.name != "main" and not (t.want and t.want[0] == "pred"))
         s.abort()
+        import gc
+        gc.collect()      # finalise abandoned generators now, while their locks are known to be inactive
         mbmod.threading = _REAL_THREADING
         dsched.set_sched(None)
